@@ -6,8 +6,16 @@ A case is one whole history on one IndexedSet:
   cf    compaction factor patched into boltons.setutils._COMPACTION_FACTOR for this case
         (None = the constant of the source); lets small sets keep tombstones
   nk    size of the item universe probed by `full`
-  alias 1 = item arguments are passed as equal floats (1.0 for 1) on odd op positions
-Operands are [type, items] with type in set/frozenset/list/tuple/iset/isetd/self.
+  alias 1 = item arguments are passed as equal floats (1.0 for 1) on odd op positions (ignored when the
+        case has an 'addp' op: a float orders itself against any int subclass without asking it)
+  pexc  (optional) name of the exception class raised by the comparison of a "poison" item / key
+Operands are [type, items] with type in set/frozenset/list/tuple/iset/isetd/self, or ['reg', k]: the
+IndexedSet held in register k as it is at that moment (register 0 = the receiver; k = current register
+means the receiver itself).  Several sets at once: ['fork', <query op>] keeps the IndexedSet returned by
+union/inter/diff/symdiff/or/and/sub/xor/ror/rand/rxor/slice/copy as a new register, ['sel', k] makes
+register k the target of the following ops.  ['addp', x] adds x as an int whose ordering comparisons
+raise; ['sortk', rev, key, bad] is sort(key=..., reverse=rev) where the key of every item of `bad`
+cannot be compared (raises); key in none/id/neg/mod<k>/div<k>/const.
 """
 import ast
 import itertools
@@ -24,8 +32,51 @@ NARY_Q = {'union': 'U', 'inter': 'N', 'diff': 'M', 'symdiff': 'X'}
 INPLACE = {'ior': 'u', 'iand': 'n', 'isub': 'm', 'ixor': 'x'}
 BINOPS = {'or': 'U', 'and': 'N', 'sub': 'M', 'xor': 'X', 'ror': 'U', 'rand': 'N', 'rxor': 'X'}
 PREDS = {'issubset': 'e', 'issuperset': 'E', 'isdisjoint': 'j'}
-MUTATORS = {'add', 'remove', 'discard', 'pop', 'popi', 'clear', 'sort', 'reverse', 'supdate'} | set(NARY_MUT) | set(INPLACE)
+MUTATORS = {'add', 'addp', 'remove', 'discard', 'pop', 'popi', 'clear', 'sort', 'sortk', 'reverse', 'supdate'} | set(NARY_MUT) | set(INPLACE)
 JUNK = 10 ** 6
+FORKABLE = set(NARY_Q) | set(BINOPS) | {'slice', 'copy'}
+PEXC = ('TypeError', 'ValueError', 'KeyError', 'ZeroDivisionError', 'RuntimeError', 'PoisonError')
+KEYS = ('none', 'id', 'neg', 'mod2', 'mod3', 'mod5', 'div2', 'div4', 'const')
+
+
+def key_fn(key):
+    if key in ('none', 'id'):
+        return lambda x: x
+    if key == 'neg':
+        return lambda x: -x
+    if key == 'const':
+        return lambda x: 0
+    if key.startswith('mod'):
+        k = int(key[3:])
+        return lambda x: x % k
+    if key.startswith('div'):
+        k = int(key[3:])
+        return lambda x: x // k
+    raise ValueError(key)
+
+
+def key_tok(key):
+    return {'none': 'i', 'id': 'i', 'neg': 'n', 'const': 'c'}.get(key) or key[0] + key[3:]
+
+
+def poison_types(pexc):
+    """an int whose ordering comparisons raise, and a sort key that cannot be compared"""
+    import builtins
+    E = getattr(builtins, pexc, None)
+    if not (isinstance(E, type) and issubclass(E, Exception)):
+        E = type(str(pexc), (Exception,), {})
+
+    def boom(self, other):
+        raise E('these two cannot be ordered')
+
+    class PInt(int):
+        __slots__ = ()
+        __lt__ = __gt__ = __le__ = __ge__ = boom
+
+    class PKey(object):
+        __slots__ = ()
+        __lt__ = __gt__ = __le__ = __ge__ = boom
+    return PInt, PKey
 
 
 def dedupe(xs):
@@ -38,10 +89,15 @@ def dedupe(xs):
 
 
 def operand_order(o, ref):
-    """what iterating the operand yields - computed without boltons"""
+    """what iterating the operand yields - computed without boltons; ref = the reference state"""
     t, elems = o[0], o[1]
     if t == 'self':
-        return list(ref)
+        return list(ref.l)
+    if t == 'reg':
+        if not (isinstance(elems, int) and 0 <= elems < len(ref.regs)):
+            ref.valid = False
+            return []
+        return list(ref.regs[elems])
     if t in ('list', 'tuple'):
         return list(elems)
     if t == 'set':
@@ -58,7 +114,7 @@ def canon(x):
     if isinstance(x, bool):
         return '?bool'
     if isinstance(x, int):
-        return x
+        return int(x)
     if isinstance(x, float) and x == int(x):
         return int(x)
     return '?' + type(x).__name__
@@ -77,23 +133,58 @@ class Ref:
     """Plain Python list of distinct items + Python set algebra: the independent restatement."""
 
     def __init__(self, n0):
-        self.l = list(range(n0))
+        self.regs = [list(range(n0))]   # one plain list per IndexedSet alive in the case
+        self.pz = [set()]               # per register: the values stored as ints that cannot be ordered
+        self.cur = 0
         self.in_model = True      # False once an argument left the model's domain (index < -len)
+        self.valid = True         # False when an op names a register that does not exist
+        self.sort_raised = False  # the last op was a sort that had to raise (any permutation may be left)
+
+    @property
+    def l(self):
+        return self.regs[self.cur]
+
+    @l.setter
+    def l(self, v):
+        self.regs[self.cur] = v
 
     def add(self, x):
         if x not in self.l:
             self.l.append(x)
 
     def osets(self, os_):
-        return [set(operand_order(o, self.l)) for o in os_]
+        return [set(operand_order(o, self)) for o in os_]
 
     def union_(self, os_):
         out = list(self.l)
         for o in os_:
-            for x in operand_order(o, self.l):
+            for x in operand_order(o, self):
                 if x not in out:
                     out.append(x)
         return out
+
+    def gain(self, os_):
+        """unorderable values the current set acquires when the operands' new items are added to it
+        (it then holds the operand's object)"""
+        seen, g = set(self.l), set()
+        for o in os_:
+            for x in operand_order(o, self):
+                if x not in seen:
+                    seen.add(x)
+                    if o[0] == 'reg' and o[1] != self.cur and x in self.pz[o[1]]:
+                        g.add(x)
+        return g
+
+    def eff_bad(self, key, bad):
+        """values whose comparison raises under sort(key=...)"""
+        b = set(bad)
+        if key in ('none', 'id'):
+            b |= self.pz[self.cur]
+        return b
+
+    def adopt(self, order):
+        """after a sort that raised the set may be left in any order: take the observed one"""
+        self.l = list(order)
 
     def inter_(self, os_):
         ss = self.osets(os_)
@@ -104,18 +195,57 @@ class Ref:
         return [x for x in self.l if not any(x in s for s in ss)]
 
     def symdiff_(self, o):
-        order = dedupe(operand_order(o, self.l))
+        order = dedupe(operand_order(o, self))
         so = set(order)
         return [x for x in self.l if x not in so] + [x for x in order if x not in self.l]
 
     def expect(self, op):
-        """returns (kind, value): ('v', exact public result) | ('exc', acceptable class names) | SKIP;
+        """returns (kind, value): ('v', exact public result) | ('exc', acceptable class names) |
+        ('sortexc', None) a sort that must raise the case's comparison error | SKIP;
         updates the reference state"""
+        self.sort_raised = False
+        r = self._expect(op)
+        if op[0] not in ('sel',):
+            self.pz[self.cur] &= set(self.l)
+        return r
+
+    def _fork(self, inner):
+        name = inner[0]
+        if name not in FORKABLE or (name == 'symdiff' and len(inner[1]) != 1) or \
+                (name == 'slice' and not (inner[3] is None or inner[3] > 0)):
+            self.valid = False
+            return SKIP
+        pz = set(self.pz[self.cur])
+        if name in ('union', 'symdiff'):
+            pz |= self.gain(inner[1])
+        elif name in ('or', 'ror', 'xor', 'rxor'):
+            pz |= self.gain([inner[1]])
+        kind, want = self._expect(['iter'] if name == 'copy' else inner)
+        if name == 'copy':
+            want = ('IndexedSet', want)
+        self.regs.append(list(want[1]))
+        self.pz.append(pz & set(want[1]))
+        return (kind, want)
+
+    def _expect(self, op):
         l = self.l
         n = len(l)
         name = op[0]
+        if name == 'sel':
+            if not (isinstance(op[1], int) and 0 <= op[1] < len(self.regs)):
+                self.valid = False
+                return SKIP
+            self.cur = op[1]
+            return ('v', None)
+        if name == 'fork':
+            return self._fork(op[1])
         if name == 'add':
             self.add(op[1])
+            return ('v', None)
+        if name == 'addp':
+            if op[1] not in l:
+                l.append(op[1])
+                self.pz[self.cur].add(op[1])
             return ('v', None)
         if name == 'remove':
             if op[1] in l:
@@ -140,14 +270,21 @@ class Ref:
         if name == 'clear':
             del l[:]
             return ('v', None)
-        if name == 'sort':
-            l.sort(reverse=bool(op[1]))
+        if name in ('sort', 'sortk'):
+            key, bad = (op[2], op[3]) if name == 'sortk' else ('none', [])
+            eb = self.eff_bad(key, bad)
+            if n >= 2 and any(x in eb for x in l):
+                self.sort_raised = True
+                return ('sortexc', None)
+            l.sort(key=key_fn(key), reverse=bool(op[1]))
             return ('v', None)
         if name == 'reverse':
             l.reverse()
             return ('v', None)
         if name in ('update', 'ior'):
-            self.l = self.union_(op[1] if name == 'update' else [op[1]])
+            os_ = op[1] if name == 'update' else [op[1]]
+            self.pz[self.cur] |= self.gain(os_)
+            self.l = self.union_(os_)
             return ('v', None)
         if name in ('iupdate', 'iand'):
             self.l = self.inter_(op[1] if name == 'iupdate' else [op[1]])
@@ -156,6 +293,7 @@ class Ref:
             self.l = self.diff_(op[1] if name == 'dupdate' else [op[1]])
             return ('v', None)
         if name in ('supdate', 'ixor'):
+            self.pz[self.cur] |= self.gain([op[1]])
             self.l = self.symdiff_(op[1])
             return ('v', None)
         if name == 'iter':
@@ -198,13 +336,13 @@ class Ref:
             return ('v', ('IndexedSet', self.symdiff_(op[1])))
         if name == 'rsub':
             o = op[1]
-            return ('v', (o[0], sorted(set(operand_order(o, l)) - set(l))))
+            return ('v', (o[0], sorted(set(operand_order(o, self)) - set(l))))
         if name == 'issubset':
-            return ('v', set(l) <= set(operand_order(op[1], l)))
+            return ('v', set(l) <= set(operand_order(op[1], self)))
         if name == 'issuperset':
-            return ('v', set(l) >= set(operand_order(op[1], l)))
+            return ('v', set(l) >= set(operand_order(op[1], self)))
         if name == 'isdisjoint':
-            return ('v', set(l).isdisjoint(operand_order(op[1], l)))
+            return ('v', set(l).isdisjoint(operand_order(op[1], self)))
         if name == 'full':
             return ('v', {'iter': list(l), 'rev': l[::-1], 'len': n,
                           'gets': [l[i] for i in range(-n, n)], 'idxs': list(range(n)),
@@ -218,21 +356,40 @@ class C11(Property):
     PID = 'C11'
     QUICK_BUDGET_S = 38
     THOROUGH_BUDGET_S = 600
-    RULE = ('a case is one whole history on one IndexedSet(range(n0)): list-style and set-style mutators and '
-            'readers with index / slice arguments valid for a list of the current length and operands of type '
-            'set, frozenset, list, tuple, IndexedSet (fresh or with tombstones) or the receiver itself. '
-            'Exhaustive: every mutator sequence up to length L over an 11-op alphabet with a full dump (iteration, '
-            'reversed, len, s[i] for all -n<=i<n, index of every item, membership of the universe) after each '
-            'step, for n0=10 with the real compaction factor and n0=5 with factor 2; seeded random histories '
-            '(small / mid / large profiles); adversarial histories (adjacent unmerged dead intervals before a '
-            'trimmed tail, > 384 dead intervals, dead > len/8). Non-trivial = at least one reader or set '
-            'operation ran while the receiver had tombstones (dead_indices non-empty); distinct = distinct case.')
-    ASSUMPTIONS = ['items are hashable with == consistent with hash (ints, and equal floats as aliases)',
+    RULE = ('a case is one whole history on IndexedSet(range(n0)) and on the sets derived from it: list-style and '
+            'set-style mutators and readers with index / slice arguments valid for a list of the current length and '
+            'operands of type set, frozenset, list, tuple, IndexedSet (fresh, with tombstones, another live set of the '
+            'case, or the receiver itself). '
+            'Several live sets (first family): the receiver gets dead runs, then the IndexedSet returned by union / '
+            'intersection / difference / symmetric_difference / | & - ^ and their reflected forms / s[a:b:c] / '
+            'IndexedSet(s) is KEPT as a further set (also from or next to an emptied set), and 2-7 mutations follow '
+            'on any of the live sets - removals of the neighbours of the dead runs, pop, add, in-place set operations '
+            'with the other live sets as operands, sort / reverse / clear, further derived sets - with a full dump '
+            '(iteration, reversed, len, s[i] for all -n<=i<n, index of every item, membership of the universe) of '
+            'EVERY live set after each step and issubset/issuperset/isdisjoint between them; a result that is the '
+            'same object as an existing set is reported. '
+            'Sorts that raise (second family): on sets that are out of order and carry tombstones (3-130 items), '
+            'sort(key=, reverse=) where the key of 1-3 live items cannot be compared, or a natural sort over items '
+            'that are ints whose ordering comparisons raise (six exception classes); the set is dumped right after '
+            'the failed call and used further (remove / pop(i) / index / sort again); successful sorts with nine key '
+            'functions and reverse= (stability). '
+            'Exhaustive: every mutator sequence up to length L over 11-op alphabets with a full dump after each '
+            'step, for n0=6 with factor 2 (removals at both ends, reverse, sort, sort(key=)), n0=10 with the real '
+            'compaction factor and n0=5 with factor 2; seeded random histories (small / mid / large profiles, all '
+            'of the above mixed in, up to 4 live sets); adversarial histories (adjacent unmerged dead intervals '
+            'before a trimmed tail, > 384 dead intervals, dead > len/8). Non-trivial = at least one reader or set '
+            'operation ran while its receiver had tombstones (dead_indices non-empty); distinct = distinct case.')
+    ASSUMPTIONS = ['items are hashable with == consistent with hash (ints, equal floats as aliases, and int '
+                   'subclasses whose <, >, <=, >= raise)',
                    'index arguments lie in [-len, len) (pop/getitem beyond len only for the correspondence), '
                    'slice steps judged by the oracle are positive or None',
                    'operands are set, frozenset, list, tuple or IndexedSet; operator forms only with set, '
                    'frozenset, IndexedSet',
-                   'iteration order of a CPython set of small ints is a function of its construction']
+                   'iteration order of a CPython set of small ints is a function of its construction',
+                   'a sort whose comparison raises: list.sort (CPython) compares every element of a list of two or '
+                   'more at least once, so it raises; the list then still holds the same items in SOME order - '
+                   'the oracle takes the order observed right after the failed call and demands that every later '
+                   'observation is that of one list in this order']
     EXTRA_TRUSTED = ['bisect_left abstracted to "number of intervals lexicographically below the candidate" '
                      '(its value on a sorted list)']
     CORRESPONDENCE_NAME = 'C11.Driver (IndexedSet model: item_list/item_index_map/dead_indices) vs boltons.setutils.IndexedSet'
@@ -292,6 +449,11 @@ class C11(Property):
     # ------------------------------------------------------------------ generation
     def cases(self, budget_s):
         rng = self.rng
+        # small, adversarial families first: several live sets; sorts whose comparisons raise
+        for c in self.alias_cases(rng, 3000 if self.thorough else 260):
+            yield c
+        for c in self.sort_fault_cases(rng, 3000 if self.thorough else 260):
+            yield c
         for c in self.adversarial(rng, 40 if self.thorough else 10, big=2 if self.thorough else 1):
             yield c
         for c in self.exhaustive(4 if self.thorough else 3):
@@ -305,6 +467,10 @@ class C11(Property):
 
     def deep_cases(self, budget_s):
         rng = self.rng
+        for c in self.alias_cases(rng, 2000):
+            yield c
+        for c in self.sort_fault_cases(rng, 2000):
+            yield c
         for c in self.adversarial(rng, 100, big=2):
             yield c
         for c in self.exhaustive(4):
@@ -315,6 +481,9 @@ class C11(Property):
 
     def exhaustive(self, L):
         specs = [
+            # re-ordering in place next to removals at both ends
+            (6, 2, [['remove', 0], ['remove', 5], ['remove', 2], ['reverse'], ['sort', 0], ['sort', 1],
+                    ['sortk', 0, 'mod2', []], ['pop'], ['popi', 0], ['add', 6], ['add', 0]]),
             (10, None, [['remove', 0], ['remove', 1], ['remove', 4], ['remove', 8], ['remove', 9], ['add', 10],
                         ['pop'], ['popi', 0], ['popi', 5], ['popi', -2], ['discard', 3]]),
             (5, 2, [['remove', 0], ['remove', 1], ['remove', 2], ['remove', 3], ['remove', 4], ['add', 5],
@@ -338,6 +507,8 @@ class C11(Property):
 
     def gen_operand(self, rng, ref, nk, types=ALL_TYPES):
         t = rng.choice(types)
+        if len(ref.regs) > 1 and any(x in types for x in ISET_TYPES) and rng.random() < 0.3:
+            return ['reg', rng.randrange(len(ref.regs))]       # another live IndexedSet (or the receiver)
         if t == 'self':
             return ['self', []]
         r = rng.random()
@@ -387,7 +558,9 @@ class C11(Property):
             ('count', 1), ('len', 1), ('rev', 1), ('sort', 1.2), ('reverse', 1.2), ('clear', 0.3),
             ('update', 3), ('iupdate', 2), ('dupdate', 2), ('supdate', 2), ('inplace', 3),
             ('nary', 5), ('binop', 3), ('rbinop', 2), ('pred', 3),
+            ('fork', 1.6), ('sel', 2.5), ('sortk', 1.0), ('addp', 0.4),
         ]
+        pexc = rng.choice(PEXC)
         names = [t[0] for t in table]
         weights = [t[1] for t in table]
         for _ in range(nops):
@@ -466,6 +639,19 @@ class C11(Property):
                 op = [rng.choice(['ror', 'rand', 'rxor', 'rsub']), self.gen_operand(rng, ref, nk, SET_TYPES)]
             elif kind == 'pred':
                 op = [rng.choice(list(PREDS)), self.gen_operand(rng, ref, nk)]
+            elif kind == 'fork':
+                if len(ref.regs) < 4:
+                    op = ['fork', self.gen_fork(rng, ref, nk)]
+            elif kind == 'sel':
+                if len(ref.regs) > 1:
+                    op = ['sel', rng.randrange(len(ref.regs))]
+            elif kind == 'sortk':
+                bad = []
+                if l and rng.random() < 0.35:
+                    bad = sorted(set(rng.choice(l) for _ in range(rng.randint(1, 2))))
+                op = ['sortk', rng.choice([0, 0, 1]), rng.choice(KEYS), bad]
+            elif kind == 'addp':
+                op = ['addp', rng.randrange(nk)]
             if op is None:
                 continue
             ref.expect(op)
@@ -474,7 +660,238 @@ class C11(Property):
                 ops.append(['iter'])
         if rng.random() < 0.7:
             ops.append(['full', nk])
-        return {'n0': n0, 'cf': cf, 'nk': nk, 'alias': 1 if rng.random() < 0.15 else 0, 'ops': ops}
+        alias = 1 if rng.random() < 0.15 and not any(op[0] == 'addp' for op in ops) else 0
+        return {'n0': n0, 'cf': cf, 'nk': nk, 'alias': alias, 'pexc': pexc, 'ops': ops}
+
+    def gen_fork(self, rng, ref, nk):
+        """a query whose result (an IndexedSet) is kept as a further set"""
+        l = ref.l
+        n = len(l)
+        r = rng.random()
+        ops1 = SET_TYPES + ISET_TYPES + ('self',)
+        if r < 0.2:
+            return ['copy']
+        if r < 0.4:
+            return ['union', self.gen_operands(rng, ref, nk)]
+        if r < 0.5:
+            return [rng.choice(['or', 'xor', 'and', 'sub']), self.gen_operand(rng, ref, nk, ops1)]
+        if r < 0.56:
+            return [rng.choice(['ror', 'rxor', 'rand']), self.gen_operand(rng, ref, nk, SET_TYPES)]
+        if r < 0.66:
+            return ['inter', rng.choice([[], [['self', []]], [['list', list(l) + [nk + 1]]], self.gen_operands(rng, ref, nk)])]
+        if r < 0.76:
+            return ['diff', rng.choice([[], [['set', [nk + 1, nk + 2]]], [['tuple', []]], self.gen_operands(rng, ref, nk)])]
+        if r < 0.82:
+            return ['symdiff', [self.gen_operand(rng, ref, nk)]]
+        a = rng.choice([None, None, 0, 1, -n, rng.randint(-n - 1, n + 1)])
+        b = rng.choice([None, None, n, n + 2, -1, rng.randint(-n - 1, n + 1)])
+        return ['slice', a, b, rng.choice([None, None, 1, 1, 2, 3])]
+
+    def dump_all(self, ref, nk):
+        """full dump of every live set; the current one last, so that the cursor stays"""
+        ops = []
+        cur = ref.cur
+        for k in list(range(len(ref.regs))):
+            if k != cur:
+                ops.append(['sel', k])
+                ops.append(['full', nk])
+        if len(ref.regs) > 1:
+            ops.append(['sel', cur])
+        ops.append(['full', nk])
+        return ops
+
+    def alias_cases(self, rng, n):
+        """several live sets: a query result / copy / IndexedSet operand is kept and worked on next to the set
+        it came from; after every mutation of one of them ALL are dumped.  The receiver carries dead
+        runs when the other set is made, and the next removals hit the neighbours of those runs."""
+        for _ in range(n):
+            if rng.random() < 0.3:
+                n0, cf = rng.randint(3, 12), rng.choice([2, 2, 3])
+            else:
+                n0, cf = rng.randint(17, 56), None
+            nk = n0 + 8
+            fresh = [n0]
+            ref = Ref(n0)
+            ops = []
+            hot = []
+
+            def push(op):
+                ref.expect(op)
+                ops.append(op)
+
+            def removal(x):
+                l = ref.l
+                r = rng.random()
+                if r < 0.6:
+                    return ['remove', x]
+                if r < 0.75:
+                    return ['discard', x]
+                i = l.index(x)
+                if i == len(l) - 1:
+                    return ['remove', x]
+                return ['popi', i if rng.random() < 0.6 else i - len(l)]
+
+            def kill(x):
+                if x in ref.l:
+                    push(removal(x))
+                    hot.extend([x - 1, x + 1, x - 2, x + 2])
+
+            # dead runs in the receiver (kept below the compaction threshold most of the time)
+            budget = max(1, (n0 // 8) if cf is None else (n0 // cf) - 1)
+            i = rng.randint(1, max(1, n0 - 4))
+            pattern = rng.choice([[0], [0], [0, 1], [1, 0], [0, 2], [0, 2, 1], [2, 0], [0, 3], [0, 1, 2]])
+            for d in pattern[:budget + (1 if rng.random() < 0.15 else 0)]:
+                kill(i + d)
+            if rng.random() < 0.3:
+                kill(rng.randrange(n0))
+            scenario = rng.random()
+            push(['fork', self.gen_fork(rng, ref, nk) if scenario > 0.25 else rng.choice(
+                [['copy'], ['union', []], ['or', ['set', []]], ['slice', None, None, None], ['inter', [['self', []]]],
+                 ['diff', []], ['union', [['list', [nk - 1, 2, nk - 2]]]]])])
+            ops.extend(self.dump_all(ref, nk))
+            if scenario < 0.12:
+                # the receiver is emptied and refilled from the other set
+                push(rng.choice([['clear'], ['dupdate', [['self', []]]], ['iupdate', [['list', []]]]]))
+                push(rng.choice([['update', [['reg', 1]]], ['ior', ['reg', 1]], ['supdate', ['reg', 1]]]))
+                ops.extend(self.dump_all(ref, nk))
+            elif scenario < 0.24:
+                # an empty set next to a full one: results of queries between them are sets of their own
+                push(rng.choice([['clear'], ['dupdate', [['self', []]]], ['isub', ['self', []]]]))
+                o = rng.choice([['reg', 1], ['reg', 1], ['self', []], ['reg', 0]])
+                push(['fork', rng.choice([['union', [o]], ['or', o], ['inter', [o]], ['and', o], ['symdiff', [o]],
+                                          ['xor', o], ['diff', [o]], ['sub', o], ['union', [o, ['list', [1]]]]])])
+                if rng.random() < 0.5:
+                    push(['sel', 1])
+                    o = ['reg', rng.choice([0, 2])]
+                    push(['fork', rng.choice([['union', [o]], ['inter', [o]], ['and', o], ['diff', [o]], ['xor', o]])])
+                ops.extend(self.dump_all(ref, nk))
+            for _m in range(rng.randint(2, 7)):
+                if rng.random() < 0.55:
+                    push(['sel', rng.randrange(len(ref.regs))])
+                l = ref.l
+                other = ['reg', rng.randrange(len(ref.regs))]
+                r = rng.random()
+                live_hot = [x for x in hot if x in l]
+                if r < 0.42 and live_hot:
+                    kill(rng.choice(live_hot))
+                elif r < 0.52 and l:
+                    kill(rng.choice(l))
+                elif r < 0.58 and l:
+                    push(['pop'])
+                elif r < 0.66:
+                    push(['add', fresh[0]])
+                    fresh[0] += 1
+                    nk = max(nk, fresh[0] + 1)
+                elif r < 0.70 and hot:
+                    push(['add', max(0, rng.choice(hot))])
+                elif r < 0.76:
+                    push(rng.choice([['update', [other]], ['ior', other], ['update', [other, ['list', [fresh[0]]]]]]))
+                elif r < 0.81:
+                    push(rng.choice([['dupdate', [other]], ['isub', other], ['iupdate', [other]], ['iand', other],
+                                     ['supdate', other], ['ixor', other]]))
+                elif r < 0.85:
+                    push(rng.choice([['sort', 0], ['sort', 1], ['reverse'], ['sortk', 0, 'neg', []]]))
+                elif r < 0.88:
+                    push(['clear'])
+                elif r < 0.94 and len(ref.regs) < 4:
+                    push(['fork', self.gen_fork(rng, ref, nk)])
+                else:
+                    push(rng.choice([['issubset', other], ['issuperset', other], ['isdisjoint', other],
+                                     ['union', [other]], ['inter', [other, ['self', []]]], ['diff', [other]],
+                                     ['symdiff', [other]], ['and', other], ['sub', other]]))
+                ops.extend(self.dump_all(ref, nk))
+                if rng.random() < 0.6:      # how the live sets relate to each other now
+                    for _p in range(rng.randint(1, 2)):
+                        push([rng.choice(list(PREDS)), ['reg', rng.randrange(len(ref.regs))]])
+            yield {'n0': n0, 'cf': cf, 'nk': nk, 'alias': 0, 'ops': ops}
+
+    def sort_fault_cases(self, rng, n):
+        """sorts whose comparisons raise (an item that cannot be ordered, or a key that cannot) on sets
+        that are out of order and carry tombstones; the set is dumped right after the failed call and
+        used further.  Also successful sorts with key= / reverse= (stability)."""
+        for _ in range(n):
+            r = rng.random()
+            if r < 0.45:
+                n0, cf = rng.randint(3, 12), rng.choice([None, 2, 2, 3])
+            elif r < 0.85:
+                n0, cf = rng.randint(16, 44), None
+            else:
+                n0, cf = rng.choice([66, 80, 100, 130]), None
+            nk = n0 + 6
+            fresh = [n0]
+            ref = Ref(n0)
+            ops = []
+            pexc = rng.choice(PEXC)
+
+            def push(op):
+                ref.expect(op)
+                ops.append(op)
+
+            def scramble():
+                l = ref.l
+                r = rng.random()
+                if r < 0.35 and l:
+                    x = rng.choice(l)                  # to the end of the order
+                    push(['remove', x])
+                    push(['addp', x] if rng.random() < 0.15 else ['add', x])
+                elif r < 0.5 and l:
+                    push(['remove', rng.choice(l)])    # stays a tombstone
+                elif r < 0.6:
+                    push(['reverse'])
+                elif r < 0.7:
+                    push(['sortk', rng.choice([0, 1]), rng.choice(KEYS), []])
+                elif r < 0.8:
+                    push(['addp' if rng.random() < 0.3 else 'add', fresh[0]])
+                    fresh[0] += 1
+                elif r < 0.9 and l:
+                    push(['popi', rng.randrange(len(l))])
+                else:
+                    push(['update', [['list', [rng.randrange(nk) for _ in range(3)]]]])
+
+            def a_sort(fail):
+                l = ref.l
+                rev = rng.choice([0, 0, 1])
+                if fail and l:
+                    if ref.pz[ref.cur] and rng.random() < 0.5:
+                        return rng.choice([['sort', rev], ['sortk', rev, rng.choice(['none', 'id']), []]])
+                    k = rng.choice([1, 1, 1, 2, 3])
+                    bad = sorted(set(rng.choice(l) for _ in range(k)))
+                    if rng.random() < 0.3:
+                        bad = sorted(set(bad + [rng.randrange(nk)]))
+                    return ['sortk', rev, rng.choice(KEYS[1:]), bad]
+                if ref.pz[ref.cur]:
+                    return ['sortk', rev, rng.choice(KEYS[2:]), []]
+                return rng.choice([['sort', rev], ['sortk', rev, rng.choice(KEYS), []]])
+
+            for _s in range(rng.randint(1, 6 if n0 < 60 else 14)):
+                scramble()
+            if rng.random() < 0.25:
+                push(['fork', rng.choice([['copy'], ['union', []], ['slice', None, None, None]])])
+                if rng.random() < 0.5:
+                    push(['sel', 1])
+            for _round in range(rng.randint(1, 3)):
+                push(a_sort(rng.random() < 0.75))
+                ops.extend(self.dump_all(ref, nk))
+                for _s in range(rng.randint(0, 3)):
+                    l = ref.l
+                    r = rng.random()
+                    if r < 0.3 and l:
+                        push(['remove', rng.choice(l)])
+                    elif r < 0.45 and l:
+                        push(['popi', rng.randrange(-len(l), len(l))])
+                    elif r < 0.6 and l:
+                        push(['index', rng.choice(l)])
+                    elif r < 0.7 and l:
+                        push(['get', rng.randrange(-len(l), len(l))])
+                    elif r < 0.8:
+                        push(['add', fresh[0]])
+                        fresh[0] += 1
+                    elif r < 0.9 and len(ref.regs) > 1:
+                        push(['sel', rng.randrange(len(ref.regs))])
+                    else:
+                        scramble()
+                ops.extend(self.dump_all(ref, nk))
+            yield {'n0': n0, 'cf': cf, 'nk': max(nk, fresh[0] + 1), 'alias': 0, 'pexc': pexc, 'ops': ops}
 
     def adversarial(self, rng, n, big=0):
         """(a) adjacent unmerged dead intervals in front of a tail that then gets trimmed;
@@ -557,14 +974,91 @@ class C11(Property):
                 return False
         return True
 
+    def valid(self, case):
+        """every register named by an op exists at that point; forks are of forkable queries"""
+        ref = Ref(case['n0'])
+        try:
+            for op in case['ops']:
+                ref.expect(op)
+                if not ref.valid:
+                    return False
+        except Exception:
+            return False
+        return True
+
     @staticmethod
-    def _operand_tok(o, ref_l):
+    def _operand_tok(o, ref):
         t = o[0]
         if t == 'self':
             return 'S-'
-        order = operand_order(o, ref_l)
+        if t == 'reg':
+            return 'R%d' % o[1]
+        order = operand_order(o, ref)
         body = ','.join(str(x) for x in order) or '-'
         return ('I' if t in ISET_TYPES else 'C') + body
+
+    def _tok(self, op, ref):
+        def ob(x):
+            return '_' if x is None else str(x)
+        name = op[0]
+        l = ref
+        if name == 'sel':
+            return '@%d' % op[1]
+        if name == 'fork':
+            return '+' + ('i' if op[1][0] == 'copy' else self._tok(op[1], ref))
+        if name in ('add', 'addp'):
+            return 'a%d' % op[1]
+        if name == 'remove':
+            return 'r%d' % op[1]
+        if name == 'discard':
+            return 'd%d' % op[1]
+        if name == 'pop':
+            return 'p'
+        if name == 'popi':
+            return 'P%d' % op[1]
+        if name == 'clear':
+            return 'c'
+        if name in ('sort', 'sortk'):
+            key, bad = (op[2], op[3]) if name == 'sortk' else ('none', [])
+            eb = sorted(ref.eff_bad(key, bad))
+            if name == 'sort' and not eb:
+                return 's%d' % op[1]
+            return 'y%d|%s|%s' % (op[1], key_tok(key), ','.join(str(x) for x in eb) or '-')
+        if name == 'reverse':
+            return 'v'
+        if name in NARY_MUT:
+            return NARY_MUT[name] + '/'.join(self._operand_tok(o, l) for o in op[1])
+        if name == 'supdate':
+            return 'x' + self._operand_tok(op[1], l)
+        if name in INPLACE:
+            return INPLACE[name] + self._operand_tok(op[1], l)
+        if name == 'iter':
+            return 'i'
+        if name == 'len':
+            return 'l'
+        if name == 'in':
+            return 'h%d' % op[1]
+        if name == 'get':
+            return 'g%d' % op[1]
+        if name == 'slice':
+            return ':%s,%s,%s' % (ob(op[1]), ob(op[2]), ob(op[3]))
+        if name == 'index':
+            return 'k%d' % op[1]
+        if name == 'count':
+            return 't%d' % op[1]
+        if name == 'rev':
+            return 'w'
+        if name in NARY_Q:
+            return NARY_Q[name] + '/'.join(self._operand_tok(o, l) for o in op[1])
+        if name in BINOPS:
+            return BINOPS[name] + self._operand_tok(op[1], l)
+        if name == 'rsub':
+            return 'B' + self._operand_tok(op[1], l)
+        if name in PREDS:
+            return PREDS[name] + self._operand_tok(op[1], l)
+        if name == 'full':
+            return 'f%d' % op[1]
+        raise InfraError('unknown op %r' % (op,))
 
     def line(self, case):
         cf = case.get('cf')
@@ -572,66 +1066,14 @@ class C11(Property):
             return None
         ref = Ref(case['n0'])
         toks = [str(cf or 0), str(case['n0'])]
-
-        def ob(x):
-            return '_' if x is None else str(x)
         for op in case['ops']:
-            name = op[0]
-            l = list(ref.l)
-            if name == 'add':
-                t = 'a%d' % op[1]
-            elif name == 'remove':
-                t = 'r%d' % op[1]
-            elif name == 'discard':
-                t = 'd%d' % op[1]
-            elif name == 'pop':
-                t = 'p'
-            elif name == 'popi':
-                t = 'P%d' % op[1]
-            elif name == 'clear':
-                t = 'c'
-            elif name == 'sort':
-                t = 's%d' % op[1]
-            elif name == 'reverse':
-                t = 'v'
-            elif name in NARY_MUT:
-                t = NARY_MUT[name] + '/'.join(self._operand_tok(o, l) for o in op[1])
-            elif name == 'supdate':
-                t = 'x' + self._operand_tok(op[1], l)
-            elif name in INPLACE:
-                t = INPLACE[name] + self._operand_tok(op[1], l)
-            elif name == 'iter':
-                t = 'i'
-            elif name == 'len':
-                t = 'l'
-            elif name == 'in':
-                t = 'h%d' % op[1]
-            elif name == 'get':
-                t = 'g%d' % op[1]
-            elif name == 'slice':
-                t = ':%s,%s,%s' % (ob(op[1]), ob(op[2]), ob(op[3]))
-            elif name == 'index':
-                t = 'k%d' % op[1]
-            elif name == 'count':
-                t = 't%d' % op[1]
-            elif name == 'rev':
-                t = 'w'
-            elif name in NARY_Q:
-                t = NARY_Q[name] + '/'.join(self._operand_tok(o, l) for o in op[1])
-            elif name in BINOPS:
-                t = BINOPS[name] + self._operand_tok(op[1], l)
-            elif name == 'rsub':
-                t = 'B' + self._operand_tok(op[1], l)
-            elif name in PREDS:
-                t = PREDS[name] + self._operand_tok(op[1], l)
-            elif name == 'full':
-                t = 'f%d' % op[1]
-            else:
-                raise InfraError('unknown op %r' % (op,))
+            t = self._tok(op, ref)
             toks.append(t)
             ref.expect(op)
             if not ref.in_model:
                 return None
+            if not ref.valid:
+                raise InfraError('case names a register that does not exist: %r' % (op,))
         return ' '.join(toks)
 
     # ------------------------------------------------------------------ implementation
@@ -640,11 +1082,12 @@ class C11(Property):
         import boltons.setutils as su
         return isinstance(getattr(su, '_COMPACTION_FACTOR', None), int)
 
-    @staticmethod
-    def _mk_operand(o, s, IndexedSet):
+    def _mk_operand(self, o, s, IndexedSet):
         t, elems = o[0], o[1]
         if t == 'self':
             return s
+        if t == 'reg':
+            return self._regs[elems]          # the live object itself, not a copy
         if t == 'set':
             return set(elems)
         if t == 'frozenset':
@@ -670,17 +1113,25 @@ class C11(Property):
         cf = case.get('cf')
         patched = cf is not None and self._can_patch()
         old_cf = getattr(su, '_COMPACTION_FACTOR', None)
-        alias = case.get('alias')
+        alias = case.get('alias') and not any(op[0] == 'addp' for op in case['ops'])
         fac, lim = getattr(self, '_consts', None) or self._read_consts()
         if patched:
             fac = cf
+        self._pint, self._pkey = poison_types(case.get('pexc') or 'TypeError')
         try:
             if patched:
                 su._COMPACTION_FACTOR = cf
             with time_limit(10 if case['n0'] < 1000 else 30):
                 s = IndexedSet(range(case['n0']))
+                regs = self._regs = [s]
+                cur = 0
                 for pos, op in enumerate(case['ops']):
                     name = op[0]
+                    if name == 'sel':
+                        cur = op[1]
+                        s = regs[cur]
+                        out.append({'v': None})
+                        continue
 
                     def it(x):
                         return float(x) if alias and pos % 2 else x
@@ -693,16 +1144,34 @@ class C11(Property):
                         if nd > diag['maxdead']:
                             diag['maxdead'] = nd
                     try:
-                        rec = self._do(s, op, it, IndexedSet)
+                        if name == 'fork':
+                            self._last = None
+                            new = None
+                            try:
+                                inner = op[1]
+                                rec = self._do(s, ['copy'] if inner[0] == 'copy' else inner, it, IndexedSet)
+                                new = self._last
+                            finally:
+                                # keep the register numbering even when the query failed
+                                regs.append(new if isinstance(new, IndexedSet) else IndexedSet())
+                            if new is s or any(new is r for r in regs[:-1]):
+                                rec = {'v': '?same-object-as-an-existing-set'}
+                        else:
+                            rec = self._do(s, op, it, IndexedSet)
                         if name in INPLACE:
                             s2, rec = rec
                             if s2 is not s:
                                 rec = {'v': '?notself'}
-                            s = s2
+                            s = regs[cur] = s2
                     except CaseTimeout:
                         raise
                     except Exception as e:
                         rec = {'exc': exc_name(e)}
+                        if name in ('sort', 'sortk'):
+                            try:        # what the set looks like after the failed sort
+                                rec['after'] = canon_list(iter(s))
+                            except Exception as e2:
+                                rec['after'] = ['?' + exc_name(e2)]
                     out.append(rec)
                     if nd == lim and getattr(s, '_compactions', 0) > comp0 and (n_items - n_map + 1) * fac <= n_items:
                         diag['cull384'] += 1      # compaction forced by the interval-count limit alone
@@ -714,6 +1183,7 @@ class C11(Property):
         finally:
             if patched:
                 su._COMPACTION_FACTOR = old_cf
+            self._regs = None
         return {'recs': out, 'diag': diag}
 
     def _do(self, s, op, it, IndexedSet):
@@ -721,9 +1191,23 @@ class C11(Property):
         mk = self._mk_operand
 
         def res(r):
+            self._last = r
             return {'v': canon_list(r), 't': type(r).__name__}
+        if name == 'copy':
+            return res(IndexedSet(s))
         if name == 'add':
             return {'v': canon_none(s.add(it(op[1])))}
+        if name == 'addp':
+            return {'v': canon_none(s.add(self._pint(op[1])))}
+        if name == 'sortk':
+            key, bad = op[2], set(op[3])
+            kw = {}
+            if op[1]:
+                kw['reverse'] = True
+            if key != 'none' or bad:
+                kf, PKey = key_fn(key), self._pkey
+                kw['key'] = (lambda x: PKey() if x in bad else kf(x)) if bad else kf
+            return {'v': canon_none(s.sort(**kw))}
         if name == 'remove':
             return {'v': canon_none(s.remove(it(op[1])))}
         if name == 'discard':
@@ -812,10 +1296,16 @@ class C11(Property):
         for k, o in enumerate(obs['recs']):
             op = ops[k] if k < len(ops) else ['?']
             if 'exc' in o:
-                recs.append('X' + o['exc'])
+                if op[0] in ('sort', 'sortk') and o['exc'] == (case.get('pexc') or 'TypeError') \
+                        and o.get('after') is not None:
+                    recs.append('XCmpError')
+                else:
+                    recs.append('X' + o['exc'])
                 continue
             v = o['v']
             name = op[0]
+            if name == 'fork':
+                name = op[1][0]
             if name == 'full':
                 recs.append('F' + '|'.join([items(v['iter']), items(v['rev']), str(v['len']), items(v['gets']),
                                             items(v['idxs']), items(v['has'])]))
@@ -852,9 +1342,29 @@ class C11(Property):
             if o.get('exc') == 'CaseTimeout':
                 return Failure('timeout', 'op #%d %r did not finish' % (k, op))
             kind, want = ref.expect(op)
+            if not ref.valid:
+                raise InfraError('case names a register that does not exist: op #%d %r' % (k, op))
+            if name == 'fork':
+                st['fork:' + op[1][0]] = st.get('fork:' + op[1][0], 0) + 1
             if 'exc' in o:
                 st['exc:' + o['exc']] = st.get('exc:' + o['exc'], 0) + 1
             if kind == 'skip':
+                continue
+            if kind == 'sortexc':
+                # a list whose sort raises keeps all its items, in some order; everything observed from
+                # here on must be the views of ONE list in that order
+                pexc = case.get('pexc') or 'TypeError'
+                if o.get('exc') != pexc:
+                    return Failure(name, 'op #%d %r: comparing the items raises %s, so must sort(); observed %r'
+                                   % (k, op, pexc, {x: o[x] for x in o if x != 'after'}))
+                after = o.get('after')
+                if not isinstance(after, list) or sorted(map(repr, after)) != sorted(map(repr, ref.l)):
+                    return Failure(name, 'op #%d %r raised %s and left the items %r; before the call they were %r'
+                                   % (k, op, pexc, after, ref.l))
+                st['sort_raised'] = st.get('sort_raised', 0) + 1
+                if after != ref.l:
+                    st['sort_raised_reordered'] = st.get('sort_raised_reordered', 0) + 1
+                ref.adopt(after)
                 continue
             if kind == 'exc':
                 if o.get('exc') not in want:
@@ -892,12 +1402,39 @@ class C11(Property):
         return case
 
     # ------------------------------------------------------------------ shrinking
+    @staticmethod
+    def _smaller_operand(o):
+        if o[0] in ('self', 'reg'):
+            return
+        for m in range(len(o[1])):
+            yield [o[0], o[1][:m] + o[1][m + 1:]]
+
+    def _smaller(self, op):
+        """smaller variants of one op (fewer operands, fewer operand items, fewer unorderable keys)"""
+        name = op[0]
+        if name == 'fork':
+            for inner in self._smaller(op[1]):
+                yield ['fork', inner]
+        elif name in NARY_MUT or name in NARY_Q:
+            os_ = op[1]
+            for j in range(len(os_)):
+                yield [name, os_[:j] + os_[j + 1:]]
+                for o2 in self._smaller_operand(os_[j]):
+                    yield [name, os_[:j] + [o2] + os_[j + 1:]]
+        elif name in INPLACE or name in BINOPS or name in PREDS or name in ('supdate', 'rsub'):
+            for o2 in self._smaller_operand(op[1]):
+                yield [name, o2]
+        elif name == 'sortk':
+            for m in range(len(op[3])):
+                yield [name, op[1], op[2], op[3][:m] + op[3][m + 1:]]
+
     def shrink(self, case):
         ops = case['ops']
         n = len(ops)
+        was_in = self.in_model(case)
 
         def ok(c):
-            return self.in_model(c)
+            return self.valid(c) and (self.in_model(c) or not was_in)
         # drop chunks, then single ops
         size = n // 2
         while size >= 1:
@@ -910,18 +1447,10 @@ class C11(Property):
             yield dict(case, alias=0)
         # shrink operand lists
         for i, op in enumerate(ops):
-            if len(op) > 1 and isinstance(op[1], list):
-                if op[1] and isinstance(op[1][0], list):          # list of operands
-                    for j in range(len(op[1])):
-                        yield dict(case, ops=ops[:i] + [[op[0], op[1][:j] + op[1][j + 1:]]] + ops[i + 1:])
-                        o = op[1][j]
-                        for m in range(len(o[1])):
-                            o2 = [o[0], o[1][:m] + o[1][m + 1:]]
-                            yield dict(case, ops=ops[:i] + [[op[0], op[1][:j] + [o2] + op[1][j + 1:]]] + ops[i + 1:])
-                elif len(op[1]) == 2 and isinstance(op[1][0], str):  # one operand
-                    o = op[1]
-                    for m in range(len(o[1])):
-                        yield dict(case, ops=ops[:i] + [[op[0], [o[0], o[1][:m] + o[1][m + 1:]]]] + ops[i + 1:])
+            for op2 in self._smaller(op):
+                c = dict(case, ops=ops[:i] + [op2] + ops[i + 1:])
+                if ok(c):
+                    yield c
 
 
 def canon_none(x):
